@@ -54,6 +54,11 @@ def library():
                        ("floatkey", "1.5: v"), ("upperkey", "Author: Me\nDATE: today")):
         add("frontmatter", name, ["---"] + body.split("\n") + ["---", "", "# H"], toponly=True, silent=True)
     add("frontmatter", "bigint", ["---", "a: 0x" + "f" * 5000, "b: [0x" + "f" * 5000 + "]", "c: 1", "---", "", "# H"], toponly=True)
+    add("frontmatter", "deep_flow", ["---", "a: " + "[" * 3000 + "]" * 3000, "---", "", "# H"], toponly=True)
+    # the fallback rule of the block parser cannot be switched off (nothing would consume a plain line)
+    add("frontmatter", "disable_paragraph", ["---", "myst:", "  disable_syntax: [paragraph]", "---", "", "plain", "", "# H"], toponly=True)
+    add("frontmatter", "disable_rules", ["---", "myst:", "  disable_syntax: [text, heading, lheading, fence, code, list, blockquote, hr, reference, html_block, escape, entity, nosuchrule]",
+                                         "---", "", "plain `c` *e*", "", "# H", "", "- l", "", "> q", "", "    code", "", "***", "", "[r]: x", "", "<div>", "", "T", "==="], toponly=True, silent=True)
     add("frontmatter", "datekey_nested", ["---", "a:", "  2020-01-01: x", "b: 1", "---", "", "# H"], toponly=True)
     add("frontmatter", "datelist", ["---", "a: [2020-01-01]", "b: {c: 2020-01-01}", "---"], toponly=True, silent=True)
     add("frontmatter", "unclosed", ["---", "a: 1", "", "text"], toponly=True, silent=True)
@@ -103,6 +108,9 @@ def library():
     add("html", "marked_section", ['<div class="admonition">', "<![<", "</div>"])
     add("html", "deep_nesting", ['<div class="admonition">' + "<b>" * 400])
     add("html", "img_missing_src", ['<img alt="a">'])
+    # attributes written without a value that are forwarded to the directive
+    add("html", "valueless_attrs", ['<img src="a.png" alt>', "", 'x <img src=a.png class> y', "", '<div class="admonition" name>', "b", "</div>",
+                                    "", '<img src="a.png" width height align>'], silent=True)
     # substitutions
     add("substitution", "undefined", ["{{ nosuchsub }}"])
     add("substitution", "syntax", ["{{ a + }}"])
@@ -111,6 +119,7 @@ def library():
     add("link", "long_destination", ["[a](" + "x" * 300 + ") and [b](" + "y/" * 200 + "z.md)"], silent=True)
     add("link", "bad_ipv6", ["[a](http://[x) and <http://[y>"], silent=True)
     add("link", "scheme_bad_ipv6", ["[a](wiki://[x) and <wiki://[y>"])
+    add("link", "scheme_bad_port", ["<wiki://en:wikipedia/Duck> [x](wiki://host:808080/p) <wiki://h:80a> [y](https://h:99999/z) <http://h:-1/>"], silent=True)
     add("link", "missing_anchor", ["[a](#nosuchanchor)"], front="docutils")
     add("link", "missing_doc", ["[a](nosuchdoc.md) and <project:nosuch.md>"], silent=True)
     # structure
